@@ -29,12 +29,14 @@ CHECK_DEADLOCK FALSE
 """
 DUMP_CFG = 'SPECIFICATION Spec\nINVARIANT Dump\nCHECK_DEADLOCK FALSE\n'
 WORKERS = int(os.environ.get('VERIF_WORKERS', '16'))
+HARD_TIMEOUT_S = 4.0
 ANALYSIS_TIMEOUT_S = 0.5     # the fixed point of nested tuple types (x = (x, 1) in a loop) does not terminate
 
 TIERS = {
     # fam_full: exhaustive family sizes; fam_sample: (size, how many sampled); rnd: (count, statement budget)
-    'quick': dict(fam_full=(1, 2), fam_sample=((3, 1300),), rnd=((900, 8), (500, 12)), max_trip=2, max_steps=60, max_dec=8),
-    'thorough': dict(fam_full=(1, 2, 3), fam_sample=((4, 9000),), rnd=((14000, 8), (8000, 12), (3000, 16)),
+    'quick': dict(fam_full=(1, 2), fam_sample=((3, 1100),), clo=(3, 600), rnd=((700, 8), (400, 12)), max_trip=2,
+                  max_steps=60, max_dec=8),
+    'thorough': dict(fam_full=(1, 2, 3), fam_sample=((4, 9000),), clo=(3, 0), rnd=((10000, 8), (6000, 12), (2000, 16)),
                      max_trip=2, max_steps=80, max_dec=10),
 }
 
@@ -121,6 +123,8 @@ def programs(tier, seed):
     for n, k in t['fam_sample']:
         allp = list(L.family(n))
         out += [('fam%d' % n, tr) for tr in (rnd.sample(allp, k) if k < len(allp) else allp)]
+    clo = list(L.closure_family(t['clo'][0]))
+    out += [('clo', tr) for tr in (rnd.sample(clo, t['clo'][1]) if 0 < t['clo'][1] < len(clo) else clo)]
     for k, size in t['rnd']:
         base = rnd.randrange(1 << 30)
         out += [('rnd%d' % size, L.random_program(base + i, size)) for i in range(k)]
@@ -174,25 +178,91 @@ def _export_one(tree):
         return p, src, None, '%s: %s\n%s' % (type(e).__name__, e, traceback.format_exc(limit=6))
 
 
-def _export_chunk(trees):
-    return [_export_one(t) for t in trees]
+def _export_worker(conn, tables):
+    _export_init(tables)
+    while True:
+        msg = conn.recv()
+        if msg is None:
+            return
+        for i, tree in msg:
+            conn.send((i, _export_one(tree)))
+
+
+class _Worker:
+    def __init__(self, ctx, tables):
+        self.conn, child = ctx.Pipe()
+        self.proc = ctx.Process(target=_export_worker, args=(child, tables), daemon=True)
+        self.proc.start()
+        child.close()
+        self.queue = []
+        self.last = 0.0
+
+    def kill(self):
+        try:
+            self.proc.kill()
+            self.proc.join(5)
+            self.conn.close()
+        except Exception:
+            pass
 
 
 def export_all(trees, tables, procs):
-    if procs <= 1 or len(trees) < 64:
-        _export_init(tables)
-        return [_export_one(t) for t in trees]
-    out = []
+    """Export every program in worker processes.  The in-process alarm (ANALYSIS_TIMEOUT_S) stops a fixed point
+    that does not terminate; a worker that makes no progress for HARD_TIMEOUT_S (stuck inside a C call, e.g. the
+    product of exploding tuple types) is killed and replaced, and its program counts as diverged."""
+    import collections
+    import time
+    from multiprocessing.connection import wait
     ctx = multiprocessing.get_context('fork')
-    with ctx.Pool(procs, initializer=_export_init, initargs=(tables,)) as pool:
-        groups = list(common.chunks(trees, max(1, min(25, len(trees) // (procs * 4)))))
-        it = pool.imap(_export_chunk, groups)
-        try:
-            for _ in groups:
-                out += it.next(timeout=300)
-        except multiprocessing.TimeoutError:
-            raise common.MachineryError('export of %d programs stalled (no result for 300 s)' % len(trees))
-    return out
+    n = len(trees)
+    results = [None] * n
+    size = max(1, min(25, n // (max(1, procs) * 4)))
+    pending = collections.deque(list(c) for c in common.chunks(list(enumerate(trees)), size))
+    workers = [_Worker(ctx, tables) for _ in range(max(1, min(procs, len(pending))))]
+    done = 0
+    try:
+        while done < n:
+            now = time.time()
+            for w in workers:
+                if not w.queue and pending:
+                    w.queue = pending.popleft()
+                    w.last = now
+                    w.conn.send(w.queue)
+            busy = [w for w in workers if w.queue]
+            ready = wait([w.conn for w in busy], timeout=0.2)
+            now = time.time()
+            for w in busy:
+                dead = False
+                if w.conn in ready:
+                    try:
+                        while w.queue and w.conn.poll():
+                            i, r = w.conn.recv()
+                            assert i == w.queue[0][0]
+                            results[i] = r
+                            w.queue.pop(0)
+                            w.last = now
+                            done += 1
+                    except (EOFError, OSError):
+                        dead = True
+                if w.queue and (dead or now - w.last > HARD_TIMEOUT_S):
+                    i, tree = w.queue.pop(0)
+                    p = L.flatten(tree)
+                    results[i] = (p, L.render(p), None, 'diverged')
+                    done += 1
+                    if w.queue:
+                        pending.appendleft(w.queue)
+                    w.kill()
+                    workers[workers.index(w)] = _Worker(ctx, tables)
+    finally:
+        for w in workers:
+            try:
+                w.conn.send(None)
+            except Exception:
+                pass
+        for w in workers:
+            w.proc.join(2)
+            w.kill()
+    return results
 
 
 # ------------------------------------------------------------------------------------------------
@@ -263,16 +333,20 @@ def signature(b, p):
     if b['wrel'] == 'store':
         return 'c19:binding-claim-misses-type:%s:%s' % (okind, b['wk'])
     cause = None
-    if b['wk'] == 'for' and not b['wc']:
+    if b['wnl'] and b['wrel'] == 'other':
+        cause = 'nonlocal-rebinding-invisible-to-caller'
+    elif b['wk'] == 'for' and not b['wc']:
         cause = 'for-target-keeps-old-type'
     elif b['wk'] == 'aug' and not b['wc']:
         cause = 'augassign-type-not-updated'
-    elif b['wnl'] and b['wrel'] == 'other':
-        cause = 'nonlocal-rebinding-invisible-to-caller'
     elif b['wk'] in ('assign', 'unpack', 'param') and not b['wc']:
         cause = 'assign-of-unknown-keeps-old-type'
     if b['clause'] == 'closure':
+        if cause is None and b['cshadow']:
+            return 'c19:closure-types-from-call-in-local-function-use-its-own-names'
         return 'c19:' + (cause or 'closure-types-miss-captured-type')
+    if cause is None and b['clo']:
+        return 'c19:callee-annotated-before-closure-types-complete'
     if cause and okind == 'name':
         return 'c19:' + cause
     return 'c19:types-miss:%s:%s:%s' % (okind, b['wk'], b['wrel'])
@@ -406,7 +480,8 @@ def witnesses(batch, small):
             else 'binding of ' + (b['name'] or 'tuple target'),
             occurrence_id=o, variable=b['name'], runtime_type=b['t'], claimed=claim,
             last_binding=dict(kind=b['wk'], had_claim=b['wc'], via_nonlocal=b['wnl'], activation=b['wrel']),
-            operand_unknown=b['unk'])
+            operand_unknown=b['unk'], final_closure_types_cover_it=b['clo'],
+            caller_shadows_or_declares_nonlocal=b['cshadow'])
     return res
 
 
@@ -421,6 +496,8 @@ WHAT = {
     'c19:nonlocal-rebinding-invisible-to-caller': 'a local function rebinding a nonlocal variable to another type is invisible to the types the caller sees afterwards',
     'c19:assign-of-unknown-keeps-old-type': 'assigning a value of unknown type to a name leaves the old inferred type in place instead of forgetting it',
     'c19:closure-types-miss-captured-type': 'CLOSURE_TYPES of a local function do not cover the type of a captured variable at a call',
+    'c19:callee-annotated-before-closure-types-complete': 'a captured variable read in a local function keeps the types known when the function body was analysed; a call from a sibling function analysed later adds to CLOSURE_TYPES but not to the body annotations',
+    'c19:closure-types-from-call-in-local-function-use-its-own-names': 'closure types recorded at a call made inside another local function come from that function\'s own state: names it declares nonlocal are missing, locals that shadow a captured name are mixed in',
     'c19:stale-claim-after-operand-became-unknown': 'a TYPES annotation written by an early visit of the fixed point stays on the node after a later visit finds an operand unknown',
 }
 
@@ -528,3 +605,52 @@ def replay(path):
         return 1 if w.get('signature') in sigs else 0
     run(rep)
     return rep.finish()
+
+
+def selftest():
+    """Binding demonstration (a): corrupt the evidence and show that the specification rejects it.
+
+    A program on which the real analysis is sound is exported; then one TYPES claim / one CLOSURE_TYPES claim is
+    narrowed by hand.  TLC must stay silent on the genuine claims and report the corrupted ones."""
+    from .. import report
+    rep = report.Report('C19', 'quick')
+    tables = load_tables(rep)
+    tree = dict(params=[('a', [['int']])], body=[
+        ('assign', 'x', ('lit', 'int')),
+        ('def', 'g1', [], [], [('return', ('name', 'x'))]),
+        ('if', 'cb', [('assign', 'x', ('lit', 'float'))], []),
+        ('assign', 'y', ('lcall', 'g1', [])),
+        ('return', ('name', 'x'))])
+    b = Batch(tables, TIERS['quick'], name='TypeSemSelftest', workers=2, full=True)
+    out = b.run([tree])
+    print(out['srcs'][0])
+    if out['findings']:
+        print('SELFTEST FAILED: genuine claims rejected', out['findings'][0][:3])
+        return 2
+    p, claims = out['progs'][0], out['claims'][0]
+    ret_x = max(i for i, e in enumerate(p['exprs']) if e['kind'] == 'name' and e['name'] == 'x')
+    ok = True
+    for what, mutate in (
+            ('TYPES of the returned x narrowed to {int}', lambda c: c['types'][ret_x].update(ts=[['int']])),
+            ('CLOSURE_TYPES of g1 for x narrowed to {int}',
+             lambda c: [e.update(ts=[['int']]) for e in c['closure'][1] if e['name'] == 'x'])):
+        c2 = json.loads(json.dumps(claims))
+        mutate(c2)
+        got = _run_with_claims(b, p, c2)
+        print('%s -> monitor records: %s' % (what, sorted({s for s in got})))
+        ok = ok and bool(got)
+    print('SELFTEST', 'OK' if ok else 'FAILED')
+    return 0 if ok else 2
+
+
+def _run_with_claims(batch, p, claims):
+    d = common.scratch('c19_selftest_%d' % os.getpid())
+    try:
+        pf, cf = os.path.join(d, 'progs.json'), os.path.join(d, 'claims.json')
+        json.dump(L.batch([p]), open(pf, 'w'))
+        json.dump([claims], open(cf, 'w'))
+        res = tlc.run_tlc('TypeSem', batch.cfg, env=dict(C19_PROGS=pf, C19_CLAIMS=cf), workers=2, timeout=300,
+                          name='TypeSemSelftest').require_ok('TypeSem selftest')
+    finally:
+        common.rmtree(d)
+    return [signature(b, p) for t in res.json if isinstance(t, dict) and 'bad' in t for b in t['bad']]
